@@ -126,6 +126,10 @@ def module_helper_fn(s, k):
     return ma1(s, k) * 2.0
 
 
+def minus_self(k):
+    return k - k
+
+
 def weighted3(a, b, c):
     return a + 2 * b + 4 * c
 
